@@ -106,3 +106,70 @@ Proof. exact rebuild_eff. Qed.
 
 Print Assumptions C01_rows_rebuilt_are_live_rows_any_config.
 Print Assumptions C01_run_any_config.
+
+(* ---------- WITH THE OPERATION-LEVEL CALLS (ADDED; Proofs/T22*.v): histories that mix the filesystem-level calls with batched
+   CArchive / CUpdate / CDelete / CMove calls (operations.Operations used directly, as the CLI does), successful and failing.
+   [ok_hist] (Proofs/T22Def.v) asks of every operation-level call [op_call_ok] IN THE STATE IT IS ISSUED IN:
+     Archive: cleaned absolute names, no link names, no caller-supplied STFS action records (any batch size, the empty batch
+              included; missing parents, duplicate names, existing / deleted names and the root itself are all allowed);
+     Update:  cleaned absolute names that have a live row (with replace = true a tombstoned row is enough);
+     Delete:  ANY name, in any spelling (relative, uncleaned), that does not denote the root (missing names are refused
+              without writing);
+     Move:    cleaned absolute names other than the root (missing source, existing target, target below the source all allowed);
+   and of every other call what C01_rows_norm_root_kept asks ([fs_call], [call_ok]).  Each excluded corner that has a
+   counterexample is compiled in Proofs/T22Counter.v (Update of an unindexed name: the known finding
+   C01-update-of-unindexed-name; Update without replace of a tombstoned name; Archive of the uncleaned name "/b/"; Archive with
+   forged DELETE / UPDATE / version / size records; Delete "/" followed by Reopen). *)
+From STFS Require T22Test T22Counter T22Demo.
+From STFS Require Import C01Ops T22Def T22Step T22Hist.
+
+Theorem C01_rows_rebuilt_with_operations : forall c e r,
+  0 < c_rs c -> c_readonly c = false ->
+  c_csuf c = [] -> c_esuf c = [] ->
+  forallb hb_ok ((CInitialize [slash], e) :: r) = true ->
+  ok_hist c init_sys ((CInitialize [slash], e) :: r) = true ->
+  let s := final c init_sys ((CInitialize [slash], e) :: r) in
+  exists p, rebuild c (tp s) = (p, Ok tt) /\ rows p = map norm_row (rows (db s)).
+Proof. exact T22_rows_norm. Qed.
+
+Theorem C01_rows_rebuilt_with_operations_any_config : forall c e r,
+  0 < c_rs c -> c_readonly c = false ->
+  forallb hb_ok ((CInitialize [slash], e) :: r) = true ->
+  ok_hist c init_sys ((CInitialize [slash], e) :: r) = true ->
+  let s := final c init_sys ((CInitialize [slash], e) :: r) in
+  exists p, rebuild c (tp s) = (p, Ok tt) /\ rows p = map norm_row (rows (db s)).
+Proof. exact T22_rows_norm_any_config. Qed.
+
+(* one operation-level call preserves the state invariant of the C01 proof *)
+Theorem C01_operation_call_preserves_invariant : forall c s k e,
+  0 < c_rs c -> c_readonly c = false -> c_csuf c = [] -> c_esuf c = [] ->
+  Inv true c s -> op_call_ok s k = true -> hb_ok (k, e) = true ->
+  Inv true c (fst (step c (with_env s e) k)).
+Proof. exact T22_step_ok. Qed.
+
+(* the filesystem-only histories of C01_rows_norm_root_kept are instances *)
+Theorem C01_fs_histories_are_ok_hist : forall c r s,
+  forallb (fun ke => call_ok (fst ke)) r = true -> forallb (fun ke => fs_call (fst ke)) r = true -> ok_hist c s r = true.
+Proof. exact ok_hist_of_fs. Qed.
+
+(* the excluded Update of an unindexed name is a real divergence (known finding C01-update-of-unindexed-name) *)
+Theorem C01_update_of_unindexed_name_refuted :
+  forallb hb_ok T22Counter.h_upd_unindexed = true /\
+  ok_hist T22Test.cf init_sys T22Counter.h_upd_unindexed = false /\
+  ~ concl T22Test.cf T22Counter.h_upd_unindexed.
+Proof. split; [reflexivity|]. split; [reflexivity|]. unfold concl. refute. Qed.
+
+(* non-vacuity: a history with a batched Archive (directory + 2 files), Update with replace, Move of the directory, Delete,
+   interleaved with filesystem-level calls, satisfies the hypotheses (Proofs/T22Demo.v) *)
+Theorem C01_with_operations_demo :
+  forallb hb_ok T22Test.hist1 = true /\ ok_hist T22Test.cf init_sys T22Test.hist1 = true /\
+  rows_norm_ok T22Test.cf (final T22Test.cf init_sys T22Test.hist1) = true /\ concl T22Test.cf T22Test.hist1.
+Proof.
+  split; [exact (proj1 T22Demo.T22_demo_hyps)|]. split; [exact (proj1 (proj2 T22Demo.T22_demo_hyps))|].
+  split; [exact (proj1 T22Demo.T22_demo_rows_eval)|exact T22Demo.T22_demo_rows].
+Qed.
+
+Print Assumptions C01_rows_rebuilt_with_operations.
+Print Assumptions C01_rows_rebuilt_with_operations_any_config.
+Print Assumptions C01_operation_call_preserves_invariant.
+Print Assumptions C01_update_of_unindexed_name_refuted.
